@@ -66,7 +66,8 @@ PROPS["C15"] = {
 PROPS["C16"] = {
     "lean_module": "LispModel.Props.C16",
     "tie_modules": ["LispModel.Tie.SyntaxReader"],
-    "engines": [{"name": "cut", "quick": 2500, "thorough": 40000}],
+    "engines": [{"name": "cut", "quick": 2500, "thorough": 40000},
+                {"name": "replloop", "quick": 1200, "thorough": 20000}],
     "technique": "Lean 4 theorems about the reader on token prefixes + differential correspondence on cut/extended expressions incl. the REPL's multiLine verdict",
     "level_text": "Theorems over token sequences (incomplete prefix reports the innermost closer; complete expressions are never reported incomplete; surplus "
                   "closers and second expressions are rejected with a different class); tie: every well-formed generated expression cut after every token and "
@@ -266,7 +267,8 @@ PROPS["C02"] = {
     "tie_modules": ["LispModel.Tie.Appends"],
     "engines": [{"name": "hist", "quick": 4000, "thorough": 100000},
                 {"name": "pkgreg", "quick": 1500, "thorough": 40000},
-                {"name": "meta", "quick": 3000, "thorough": 60000}],
+                {"name": "meta", "quick": 3000, "thorough": 60000},
+                {"name": "keptargs", "quick": 1, "thorough": 1, "deterministic": True}],
     "technique": "Lean 4 frame theorem over a Go slice/array heap model + regenerated append-site facts + differential correspondence on operation histories",
     "level_text": "Kernel-checked: every collection builtin, modelled at the level of Go slices (backing array, offset, length, capacity, append in place "
                   "when capacity allows), refines its pure meaning and leaves every live value reading back unchanged (step_frame), hence histories of any "
